@@ -2205,4 +2205,75 @@ theorem applyAll_sinv : ∀ (rs : List BlockMods) (ir ir' : IR),
         (fun a ha => by injection ha with ha; subst ha; exact ⟨blk, hb, Or.inl hbi⟩) hI hn1 hs ho
       exact ih ir1 ir' h hI1 hok1 hnd1 (hn2 ir1 hmod) s1 o1
 
+/-! ### the executable forms of the premises are sound -/
+
+theorem attSect_some {ir : IR} {c s : Nat} (h : ir.attSect c = some s) : Sec ir c s := by
+  unfold IR.attSect at h
+  cases hb : ir.block? c with
+  | none => rw [hb] at h; cases h
+  | some blk => rw [hb] at h; exact ⟨blk, hb, h⟩
+
+theorem symsOkB_sound {ir : IR} (h : ir.symsOkB = true) : SymsOk ir [] := by
+  intro y hy b hb
+  unfold IR.symsOkB at h
+  have := List.all_eq_true.mp h y hy
+  rw [hb] at this
+  simp only [] at this
+  cases hs : ir.attSect b with
+  | none => rw [hs] at this; cases this
+  | some s => exact Or.inl ⟨s, attSect_some hs⟩
+
+theorem alookup_mem {β} (k : Nat) (v : β) : ∀ (l : List (Nat × β)), alookup k l = some v → (k, v) ∈ l := by
+  intro l
+  induction l with
+  | nil => intro h; cases h
+  | cons x xs ih =>
+    intro h
+    obtain ⟨k', v'⟩ := x
+    unfold alookup at h
+    split at h
+    · rename_i hk
+      injection h with h; subst h; subst hk
+      exact List.mem_cons_self
+    · exact List.mem_cons_of_mem _ (ih h)
+
+theorem ordOkB_sound {ir : IR} (h : ir.ordOkB = true) : OrdOk ir := by
+  intro s ch hch
+  cases hl : alookup s ir.order with
+  | none => rw [hl] at hch; cases hch
+  | some chains =>
+    rw [hl] at hch
+    simp only [Option.getD_some] at hch
+    unfold IR.ordOkB at h
+    have h1 := List.all_eq_true.mp h (s, chains) (alookup_mem s chains ir.order hl)
+    simp only [] at h1
+    have h2 := List.all_eq_true.mp h1 ch hch
+    simp only [Bool.and_eq_true, decide_eq_true_eq] at h2
+    refine ⟨h2.1, ?_⟩
+    intro b hb
+    have := List.all_eq_true.mp h2.2 b hb
+    exact attSect_some (by simpa using this)
+
+theorem sinvB_sound {ir : IR} (h1 : ir.symsOkB = true) (h2 : ir.ordOkB = true) : SInv ir :=
+  ⟨symsOkB_sound h1, ordOkB_sound h2⟩
+
+theorem otherIds_eq (p : Patch) : p.otherIds = pendOf p.others := rfl
+
+theorem patchOkB_sound {ir : IR} {p : Patch} (h : ir.patchOkB p = true) : PatchOk ir p := by
+  unfold IR.patchOkB at h
+  simp only [Bool.and_eq_true, otherIds_eq] at h
+  obtain ⟨⟨⟨⟨h1, h2⟩, h3⟩, h4⟩, h5⟩ := h
+  refine ⟨?_, of_decide_eq_true h2, ?_, of_decide_eq_true h4, ?_⟩
+  · intro c hc
+    have := List.all_eq_true.mp h1 c hc
+    simp only [Bool.and_eq_true, decide_eq_true_eq, Option.isNone_iff_eq_none] at this
+    exact this
+  · intro x hx
+    have := List.all_eq_true.mp h3 x hx
+    simpa using this
+  · intro y hy b hb
+    have := List.all_eq_true.mp h5 y hy
+    rw [hb] at this
+    simpa using this
+
 end GtirbVerif.IR
